@@ -44,10 +44,12 @@ type Net struct {
 	// Blackhole: connections of these owners are cut off from the network
 	// (writes vanish, nothing is delivered, dials never complete) until healed
 	Blackhole map[string]bool
+	// Dialed counts connection attempts per address
+	Dialed map[string]int
 }
 
 func NewNet(s *Sim) *Net {
-	return &Net{S: s, listeners: map[string]Handler{}, DialFault: map[string]string{}, Blackhole: map[string]bool{}}
+	return &Net{S: s, listeners: map[string]Handler{}, DialFault: map[string]string{}, Blackhole: map[string]bool{}, Dialed: map[string]int{}}
 }
 
 func (n *Net) Listen(addr string, h Handler) {
@@ -114,6 +116,7 @@ func (n *Net) DialOwner(ctx context.Context, network, address, owner string) (ne
 	n.mu.Lock()
 	fault := n.DialFault[address]
 	h := n.listeners[address]
+	n.Dialed[address]++
 	n.mu.Unlock()
 	n.S.Count("dial")
 	n.mu.Lock()
